@@ -31,6 +31,9 @@ def run_scenario(sc, variant, round_tag=""):
             st.get_graph = slow_get
             sys.setswitchinterval(1e-6)
         shim = None
+        if variant.get("datetime_target_ms") is not None:
+            variant = dict(variant)
+            variant["datetime_shift_days"] = (variant["datetime_target_ms"] / 1000.0 - time.time()) / 86400.0
         if variant.get("datetime_shift_days") is not None:
             # code paths that read the wall-clock date (datetime.now) when ctx.now is unset
             import datetime as _dt
